@@ -1,6 +1,7 @@
 package c07
 
 import (
+	"bytes"
 	"encoding/hex"
 	"strings"
 	"verif/harness/lib/mediah"
@@ -112,5 +113,73 @@ func TestWitnessTsMuxerSurvivesBadAudioConfig(t *testing.T) {
 	}
 	if f := res.failure(); f != "" {
 		evid.Violation(t, "witness-ts-muxer/"+f, map[string]any{"case": c, "result": res}, "%s: %s", f, describe(res))
+	}
+}
+
+// Listed finding sigHLSJump. A well-formed IDR packet whose RTP timestamp field
+// is corrupted (2^30 ticks ahead: a single-field corruption of a valid packet)
+// arrives when the current HLS segment has reached its target duration: the
+// segmenter cuts and opens the next segment at that far presentation time.
+// Every later frame lies before the segment start, the segment's duration stays
+// 0, no segment is cut any more and the playlist stops growing, although the
+// publisher goes on sending well-formed key frames on the original timeline.
+// RTP relay and FLV are not affected. (An AAC packet far ahead does the same
+// when it arrives with an empty audio cache and a segment of twice the target
+// duration; a sender report that re-anchors a clock mid-stream likewise.)
+// Passes either way; records a hit while the defect is there.
+func TestWitnessHlsTimelineJump(t *testing.T) {
+	evid.Eval(1)
+	c := &caseSpec{Codec: "H264", Audio: true, CacheGop: true, Class: "witness: key frame with timestamp 2^30 ahead"}
+	c.Prefix = plainPrefix(esgen.H264, true, 1, 90000)
+	c.Pos = len(c.Prefix)
+	idr := append([]byte{0x65, 0x88, 0x84}, bytes.Repeat([]byte{0x91}, 30)...)
+	c.Hostile = []pkt{mkPkt(rtp.ChannelVideo, mediaPacket(96, true, 300, 90000+probeStep+1<<30, idr), "valid IDR packet, timestamp field +2^30")}
+	c.ProbeTS = 90000 + 2*probeStep // the original timeline
+	c.HLSWaitMs = 1500              // the control run needs milliseconds
+	res := runCase(c, true)
+	ctl := runCase(c, false)
+	if f := ctl.failure(); f != "" {
+		t.Fatalf("harness: control run fails: %s: %s", f, describe(ctl))
+	}
+	switch f := res.failure(); f {
+	case "":
+		t.Log("HLS followed the timeline jump: the listed finding no longer reproduces")
+	case "hls-conversion-stopped":
+		evid.Hit(sigHLSJump)
+		if !evid.Known(sigHLSJump) {
+			evid.Violation(t, "witness-hls-timeline-jump", map[string]any{"case": c, "result": res}, "%s", describe(res))
+		}
+	default:
+		evid.Violation(t, "witness-hls-timeline-jump/"+f, map[string]any{"case": c, "result": res}, "%s: %s", f, describe(res))
+	}
+}
+
+// In-band parameter-set poisoning (fixed in /repo by the C06 work: 8ded303,
+// ea42bf3; kept as a regression witness). The SDP carries no sprop parameter
+// sets (legal: they are optional, RFC 6184 §8.1 / RFC 7798 §7.1). The first
+// video packet is a hostile aggregate that announces a parameter-set unit longer
+// than what it holds, or a one-byte SPS. It used to be stored as the stream's
+// SPS and never replaced, so the well-formed in-band parameter sets and key
+// frames that followed were withheld for ever.
+func TestWitnessInbandParameterSetPoisoning(t *testing.T) {
+	for _, w := range []struct {
+		codec esgen.Codec
+		name  string
+		pl    []byte
+	}{
+		{esgen.H264, "h264 stap-a 78 00 05 67", hx(0x78, 0x00, 0x05, 0x67)},
+		{esgen.H264, "h264 single 67", hx(0x67)},
+		{esgen.H264, "h264 stap-a 78 00 01 67 00", hx(0x78, 0x00, 0x01, 0x67, 0x00)},
+		{esgen.H265, "h265 ap 60 01 00 09 42 01", hx(0x60, 0x01, 0x00, 0x09, 0x42, 0x01)},
+		{esgen.H265, "h265 single 42 01", hx(0x42, 0x01)},
+		{esgen.H265, "h265 single vps 40 01", hx(0x40, 0x01)},
+	} {
+		evid.Eval(1)
+		c := &caseSpec{Codec: w.codec.String(), Audio: true, CacheGop: true, NoSprop: true, Class: "witness: " + w.name + " ahead of the in-band parameter sets"}
+		c.Prefix = plainPrefix(w.codec, true, 2, 90000)
+		c.Pos = 0
+		c.Hostile = []pkt{mkPkt(rtp.ChannelVideo, mediaPacket(96, true, 50, 90000, w.pl), w.name)}
+		c.ProbeTS = 90000 + 2*probeStep
+		judge(t, "witness-parameter-set-poisoning", c)
 	}
 }
